@@ -153,10 +153,13 @@ func Load(root string, c Config) (*Program, error) {
 		return p.Fns[i].Pos() < p.Fns[j].Pos()
 	})
 	for _, fn := range p.Fns {
-		p.byName[p.FnName(fn)] = fn
 		if !strings.HasPrefix(fnPkg(fn).Pkg.Path(), Mod+"/cmd") {
 			p.LibFns = append(p.LibFns, fn)
 		}
+	}
+	p.resolveRoles()
+	for _, fn := range p.Fns {
+		p.byName[p.FnName(fn)] = fn
 	}
 	return p, nil
 }
@@ -183,6 +186,11 @@ func shortPkg(path string) string {
 // FnName gives a stable, line-free name: pkg.(*Recv).Name or pkg.Name, with
 // $n suffixes for anonymous functions.
 func (p *Program) FnName(fn *ssa.Function) string {
+	return canonName(p.rawFnName(fn))
+}
+
+// rawFnName is FnName before role aliasing.
+func (p *Program) rawFnName(fn *ssa.Function) string {
 	pk := fnPkg(fn)
 	pre := ""
 	if pk != nil {
